@@ -260,6 +260,17 @@ func (ex *Exec) strLit(s string) *Term {
 		}
 		return r
 	}, name)), ex.tm.StrS)
+	// different literals are different strings (those of different length already differ by strlen)
+	var same []string
+	for o := range ex.strLits {
+		if len(o) == len(s) {
+			same = append(same, o)
+		}
+	}
+	sort.Strings(same)
+	for _, o := range same {
+		ex.facts = append(ex.facts, ex.p.Not(ex.p.Eq(t, ex.strLits[o])))
+	}
 	ex.strLits[s] = t
 	ex.facts = append(ex.facts, ex.p.Eq(ex.strlen(t), ex.p.Int(int64(len(s)))))
 	return t
